@@ -434,28 +434,39 @@ def c17(pid, tier, replay):
         vecs.append({"kind": "obs", "id": "c17-dup-rdnss", "toml": C.render(dup), "doc": C.strip(dup),
                      "sys": dict(sys_states(random.Random(4), 1)[0], auto=True), "lifecycle": "up", "fwderr": False})
     crashed = []
-    try:
-        outs = checks_vec.run_vectors(tmp, vecs, OBS_PKGS, "internal/corerad", "^TestVF_Observe$", "C17")
-    except vf.ProductCrash as c:
-        # a collector goroutine killed the process: find the vector in progress in the partial outputs
-        outs = []
-        import glob
-        for f in glob.glob(os.path.join(tmp, "C17-out-*.ndjson")):
-            last, done = None, set()
-            for line in open(f, errors="replace"):
-                try:
-                    e = json.loads(line)
-                except ValueError:
-                    break
-                if e.get("ev") == "reset":
-                    last = e["id"]
-                elif e.get("ev") == "obs":
-                    done.add(e["id"])
-            if last and last not in done:
-                crashed.append(last)
-            outs.append(f)
-        msg = [l for l in c.out.splitlines() if l.startswith("panic:") or l.startswith("fatal error:")][:1]
-        print("NOTE the code under test crashed the harness process: %s" % (msg or ["crash"])[0][:200])
+    outs = []
+    todo = list(vecs)
+    for attempt in range(6):
+        if not todo:
+            break
+        tag = "C17r%d" % attempt
+        try:
+            outs += checks_vec.run_vectors(tmp, todo, OBS_PKGS, "internal/corerad", "^TestVF_Observe$", tag)
+            todo = []
+        except vf.ProductCrash as c:
+            # a collector goroutine killed the process: find the vectors in progress in the partial outputs
+            import glob
+            done, inprog = set(), set()
+            for f in glob.glob(os.path.join(tmp, tag + "-out-*.ndjson")):
+                last = None
+                for line in open(f, errors="replace"):
+                    try:
+                        e = json.loads(line)
+                    except ValueError:
+                        break
+                    if e.get("ev") == "reset":
+                        last = e["id"]
+                    elif e.get("ev") == "obs":
+                        done.add(e["id"])
+                if last and last not in done:
+                    inprog.add(last)
+                outs.append(f)
+            msg = [l for l in c.out.splitlines() if l.startswith("panic:") or l.startswith("fatal error:")][:1]
+            print("NOTE the code under test crashed the harness process: %s" % (msg or ["crash"])[0][:200])
+            if not inprog:
+                break
+            crashed += sorted(inprog)
+            todo = [v for v in todo if v["id"] not in done and v["id"] not in inprog]
     rows = []
     for f in outs:
         for line in open(f, errors="replace"):
